@@ -48,10 +48,19 @@ func c06CellLen(ctx *Ctx, allowBig bool) int {
 	}
 }
 
+// c06Budget caps the bytes of one generated case: the extracted model runs on OCaml's
+// default 8MB stack and its list functions are not tail recursive (about 250KB is safe).
+var c06Budget int
+
 func c06RandCells(ctx *Ctx, n int, allowBig bool) [][]byte {
 	sl := make([][]byte, n)
 	for i := range sl {
-		sl[i] = c06RandBytes(ctx, c06CellLen(ctx, allowBig))
+		l := c06CellLen(ctx, allowBig)
+		if l > c06Budget {
+			l = ctx.Pick(3)
+		}
+		c06Budget -= l
+		sl[i] = c06RandBytes(ctx, l)
 	}
 	return sl
 }
@@ -283,6 +292,7 @@ func c06Must(f func() ([]byte, error)) []byte {
 }
 
 func c06RandEncoding(ctx *Ctx, fmtTag int) []byte {
+	c06Budget = 120000
 	switch fmtTag {
 	case 1:
 		return c06Must(c06EncStrList(c06Cells(c06CellsT(c06RandCells(ctx, ctx.Pick(6), false)))))
@@ -355,6 +365,7 @@ func c06Mutate(ctx *Ctx, b []byte) []byte {
 
 func genC06(ctx *Ctx) []Case {
 	var cases []Case
+	c06Budget = 120000
 	add := func(tag string, nontrivial bool, c *xt.T) {
 		cases = append(cases, Case{Tag: tag, Nontrivial: nontrivial, C: c})
 		ctx.Count("cases_" + tag)
@@ -383,6 +394,7 @@ func genC06(ctx *Ctx) []Case {
 	strlist("overlimit", [][]byte{[]byte("k"), c06Rep('x', 65536)}, nil)
 	strlist("overlimit", [][]byte{c06Rep('x', 70000), []byte("k")}, nil)
 	for i, n := 0, scale(300, 6000); i < n; i++ {
+		c06Budget = 120000
 		k := ctx.Pick(9)
 		if ctx.Pick(20) == 0 {
 			k = 20 + ctx.Pick(300)
@@ -414,6 +426,7 @@ func genC06(ctx *Ctx) []Case {
 			nr = 0
 		}
 		ncol := ctx.Pick(6)
+		c06Budget = 120000
 		rows := make([][][]byte, nr)
 		for j := range rows {
 			w := ncol
@@ -695,12 +708,12 @@ func genC06(ctx *Ctx) []Case {
 
 	// --- decode-only: valid encodings and small mutations of them, every reader
 	dec := func(tag string, f int, b []byte) { add(tag, true, xt.N(xt.LI(13), xt.LI(f), xt.Bytes(b))) }
-	dec("decode", 1, []byte{0, 0, 0, 1, 0, 5})                      // stream ends after the last length prefix
-	dec("decode", 2, []byte{0, 0, 0, 1, 0, 0, 0, 1, 0, 5})          // same inside a block
-	dec("decode", 2, []byte{0, 0, 0, 2, 0, 0, 0, 1, 0, 5})          // ... but not in the last row
-	dec("decode", 11, []byte{0xb0, 0x80, 0x00})                     // padded header
-	dec("decode", 11, []byte{0x30, 0x00})                           // bit 7 of the first byte clear
-	dec("decode", 11, append([]byte{0xbf}, c06Rep(0xff, 12)...))    // overlong
+	dec("decode", 1, []byte{0, 0, 0, 1, 0, 5})                   // stream ends after the last length prefix
+	dec("decode", 2, []byte{0, 0, 0, 1, 0, 0, 0, 1, 0, 5})       // same inside a block
+	dec("decode", 2, []byte{0, 0, 0, 2, 0, 0, 0, 1, 0, 5})       // ... but not in the last row
+	dec("decode", 11, []byte{0xb0, 0x80, 0x00})                  // padded header
+	dec("decode", 11, []byte{0x30, 0x00})                        // bit 7 of the first byte clear
+	dec("decode", 11, append([]byte{0xbf}, c06Rep(0xff, 12)...)) // overlong
 	dec("decode", 9, []byte("0001\n"))
 	dec("decode", 9, []byte("000Ax123456789"))
 	{
